@@ -15,8 +15,14 @@ def run(ctx, R):
                      'u16::from(AddressFamily) = size table. C14.D (address value = decoding of the address view) is the C02 layout read '
                      'relative to header[16..].')
     inv.establish_inv2(ctx, R, 'C14.I')
+    n_acc = views(ctx, R)
+    R.floor('accessor summaries x variants', n_acc, 28)
+    rest(ctx, R)
+
+
+def views(ctx, R, names=('length', 'len', 'is_empty', 'address_family', 'address_bytes', 'tlv_bytes', 'as_bytes')):
     acc = {}
-    for name in ('length', 'len', 'is_empty', 'address_family', 'address_bytes', 'tlv_bytes', 'as_bytes'):
+    for name in names:
         acc[name] = ctx.method(HDR, name)
     n_acc = 0
     for var, size in tables.FAMILY_SIZE.items():
@@ -56,7 +62,10 @@ def run(ctx, R):
                 n_acc += 1
                 if ok and var == 'IPv4' and name in ('address_bytes', 'tlv_bytes', 'length'):
                     R.sample({'rule': rule, 'entry': p, 'variant': var, 'expected': T.short(exp), 'found': T.short(found), 'assume': 'INV2'})
-    R.floor('accessor summaries x variants', n_acc, 28)
+    return n_acc
+
+
+def rest(ctx, R):
     # owned copies expose the same views: to_owned copies every field, the header bytes unchanged (rule shared with C16.O)
     from rules import C16 as C16mod
     C16mod.owned_copies(ctx, R, rule='C14.O', only=['v2::model::Header'])
